@@ -40,7 +40,7 @@ def arg_parser_init():
     parser = argparse.ArgumentParser(description="TLExport - GENERATING DECRYPTED TLS PCAPS")
 
     parser.add_argument("-p", "--serverports", help="additional ports to test for TLS-Connections", nargs="+",
-                        default=[443])
+                        action="extend", default=[443])
     parser.add_argument("-i", "--infile", help="path of input file",
                         default="tlexport/pcaps_und_keylogs/quic_pcaps/all_ciphersuites.pcapng")
     parser.add_argument("-o", "--outfile", help="path of output file", default="out.pcapng")
